@@ -1,5 +1,6 @@
 /* hstat: static-footprint observer (C12).  Linked against the library built as a private shared
- * object (-z now, no lazy PLT writes).  For every probe: one warm-up call, a snapshot of the
+ * object (-z now, no lazy PLT writes).  For every probe: one warm-up call (with other arguments AND another
+ * format / flags / sizes, so that scratch keyed by either shows up), a snapshot of the
  * library's writable PT_LOAD segments (.data/.bss), a second call with different input, and a
  * byte-wise comparison.  Output: one JSON event per probe with the number of changed bytes and the
  * first changed offsets (relative to the load base, for symbol lookup by the driver).
@@ -94,18 +95,21 @@ P(strtok_s) { rsize_t n = 30; char *ctx; strcpy(d, v ? "a,b;c" : "x y"); strtok_
 P(wcstok_s) { rsize_t n = 30; wchar_t *ctx; wcscpy(wd, v ? L"a,b;c" : L"x y"); wcstok_s(wd, &n, L",; ", &ctx); wcstok_s(NULL, &n, L",; ", &ctx); }
 P(strtolowercase_s) { strcpy(d, v ? "ABC" : "Xy"); strtolowercase_s(d, 64); }
 P(strerror_s) { strerror_s(d, 64, v ? 2 : 13); }
-P(sprintf_int) { sprintf_s(d, 64, "%d %s %x", 12 + v, STR(v), 255 + v); }
-P(sprintf_f) { sprintf_s(d, 64, "%f %e", 1.5 + v, 2.25e10 + v); }
-P(sprintf_big) { sprintf_s(d, 64, "%f", 1e12 + v); }
-P(sprintf_Lf) { sprintf_s(d, 64, "%Lf", 1.5L + v); }
-P(sprintf_Le) { sprintf_s(d, 64, "%Le x", 2.5L + v); }
-P(sprintf_a) { sprintf_s(d, 64, "%a", 1.5 + v); }
-P(sprintf_La) { sprintf_s(d, 64, "%La y", 1.5L + v); }
-P(sprintf_ls) { sprintf_s(d, 64, "%ls", WSTR(v)); }
-P(snprintf_s) { snprintf_s(d, 8, "%s", STR(v)); }
+P(sprintf_int) { sprintf_s(d, 64, v ? "%5d %.3s %#x" : "%d %s %x", 12 + v, STR(v), 255 + v); }
+P(sprintf_f) { sprintf_s(d, 64, v ? "%10.3f %+.1e" : "%f %e", 1.5 + v, 2.25e10 + v); }
+P(sprintf_big) { sprintf_s(d, 64, v ? "%-30.2f" : "%f", 1e12 + v); }
+P(sprintf_g) { sprintf_s(d, 64, v ? "%#12.4g" : "%G", 1234.5 + v); }
+P(sprintf_Lf) { sprintf_s(d, 64, v ? "%+.2Lf" : "%Lf", 1.5L + v); }
+P(sprintf_Le) { sprintf_s(d, 64, v ? "%#20.12Le x" : "%LE x", 2.5L + v); }
+P(sprintf_Lg) { sprintf_s(d, 64, v ? "%030.15Lg" : "%Lg", 2.718281828459045L + v); }
+P(sprintf_a) { sprintf_s(d, 64, v ? "%.3a" : "%A", 1.5 + v); }
+P(sprintf_La) { sprintf_s(d, 64, v ? "%-24.10La y" : "%La y", 1.5L + v); }
+P(sprintf_ls) { sprintf_s(d, 64, v ? "%-20.5ls|" : "%ls", WSTR(v)); }
+P(snprintf_s) { snprintf_s(d, 8, v ? "%10s" : "%s", STR(v)); }
 P(vsprintf_s) { vcall(0, 5 + v, STR(v)); }
 P(vsnprintf_s) { vcall(1, 5 + v, STR(v)); }
-P(swprintf_s) { swprintf_s(wd, 64, L"%d %ls", 5 + v, WSTR(v)); }
+P(swprintf_s) { swprintf_s(wd, 64, v ? L"%4d %.3ls" : L"%d %ls", 5 + v, WSTR(v)); }
+P(swprintf_f) { swprintf_s(wd, 64, v ? L"%+.2Lf %a" : L"%Le %f", 5.5L + v, 2.5 + v); }
 P(swprintf_nospc) { swprintf_s(wd, 8, L"%d %ls", 5 + v, WSTR(v)); }
 P(swprintf_nospc_big) { int i; for (i = 0; i < 700; i++) ws[i] = L'a' + v; ws[700] = 0; swprintf_s(wd, 600, L"%ls", ws); }
 P(snwprintf_s) { snwprintf_s(wd, 64, L"%d %ls", 5 + v, WSTR(v)); }
@@ -114,7 +118,7 @@ P(vswprintf_s) { vcall(2, 5 + v, WSTR(v)); }
 P(vswprintf_nospc) { vcall(4, 5 + v, WSTR(v)); }
 P(vsnwprintf_s) { vcall(3, 5 + v, WSTR(v)); }
 P(vsnwprintf_nospc) { vcall(5, 5 + v, WSTR(v)); }
-P(sscanf_s) { int x; sscanf_s(v ? "42" : "7", "%d", &x); }
+P(sscanf_s) { int x; sscanf_s(v ? "42" : "7", v ? "%3d" : "%d", &x); }
 P(qsort_small) { int a[8] = {5, 3, 8, 1, 9, 2, 7, 4}; a[0] += v; qsort_s(a, 8, sizeof(int), cmp_int, NULL); }
 P(qsort_big) { static char a[6][300]; int i; for (i = 0; i < 6; i++) { memset(a[i], 'a' + ((i * 7 + v) % 5), 300); } qsort_s(a, 6, 300, cmp_big, NULL); }
 P(qsort_mid) { static char a[7][40]; int i; for (i = 0; i < 7; i++) { memset(a[i], 'a' + ((i * 3 + v) % 6), 40); } qsort_s(a, 7, 40, cmp_big, NULL); }
@@ -149,8 +153,8 @@ P(tmpfile_s) { FILE *f = NULL; tmpfile_s(&f); if (f) fclose(f); (void)v; }
 static const struct { const char *name; probe_t fn; } PROBES[] = {
     E(strcpy_s), E(strncpy_s), E(strcat_s), E(strncat_s), E(stpcpy_s), E(strcpy_err), E(memcpy_s), E(memmove_s), E(memset_s), E(memzero_s), E(memcpy_err),
     E(strnlen_s), E(strcmp_s), E(strstr_s), E(strtok_s), E(wcstok_s), E(strtolowercase_s), E(strerror_s),
-    E(sprintf_int), E(sprintf_f), E(sprintf_big), E(sprintf_Lf), E(sprintf_Le), E(sprintf_a), E(sprintf_La), E(sprintf_ls), E(snprintf_s), E(vsprintf_s), E(vsnprintf_s),
-    E(swprintf_s), E(swprintf_nospc), E(swprintf_nospc_big), E(snwprintf_s), E(snwprintf_nospc), E(vswprintf_s), E(vswprintf_nospc), E(vsnwprintf_s), E(vsnwprintf_nospc),
+    E(sprintf_int), E(sprintf_f), E(sprintf_big), E(sprintf_g), E(sprintf_Lf), E(sprintf_Le), E(sprintf_Lg), E(sprintf_a), E(sprintf_La), E(sprintf_ls), E(snprintf_s), E(vsprintf_s), E(vsnprintf_s),
+    E(swprintf_s), E(swprintf_f), E(swprintf_nospc), E(swprintf_nospc_big), E(snwprintf_s), E(snwprintf_nospc), E(vswprintf_s), E(vswprintf_nospc), E(vsnwprintf_s), E(vsnwprintf_nospc),
     E(sscanf_s), E(qsort_small), E(qsort_big), E(qsort_mid), E(bsearch_s), E(asctime_small), E(asctime_big), E(ctime_small), E(ctime_big), E(gmtime_s), E(localtime_s),
     E(getenv_s), E(mbstowcs_s), E(wcstombs_s), E(wcrtomb_s), E(wctomb_s), E(wcscpy_s), E(wcsnorm_nfd), E(wcsnorm_nfc), E(wcsnorm_long), E(wcsnorm_marks),
     E(wcsfc_s), E(towfc_s), E(wcsicmp_s), E(wcsnatcmp_s), E(wcslwr_s), E(timingsafe_bcmp), E(strispassword_s), E(fopen_s), E(tmpfile_s),
